@@ -361,10 +361,117 @@ A_SEND = Contract(
 
 A_SEND.comp_src_trigger = True
 
+# ----- the WSGI middleware wrapper itself: middleware(handler)(app) == wsgi
+NR_T = ObjT(WM + ":NextResponse", status_code=Int, headers=ObjT(MH, _dict=Map(Str, Str)))
+FROM_APP.returns = NR_T
+EM_T = ObjT("EmitGhost", n=Int, status_code=Int, n_handler=Int, same_request=Bool)
+
+
+def identity_handler(ev, args, kwargs, node):
+    """handler(request, next_call) of an identity middleware: calls next_call(request) once and returns its result"""
+    st = ev.st
+    g = st.obj(st.ghost["em"])
+    g.fields["n_handler"] = VInt(g.fields["n_handler"].t + 1)
+    return call_value(ev, args[1], [args[0]], {}, node)
+
+
+identity_handler.mods = ("em", "ag", "outb", "it")
+
+
+def next_request_ctor(ev, args, kwargs, node):
+    return VOpaque(z3.Const(ev.st.run.fresh_name("nextreq"), opaque_sort("NextRequest")), "NextRequest")
+
+
+def next_response_call(ev, recv, args, kwargs, node):
+    """response(environ, start_response): recorded (what a StreamingResponse emits for its status / headers / iterable is
+    C05 and render_stream; here: it is called once, and it is the response from_app built)"""
+    st = ev.st
+    g = st.obj(st.ghost["em"])
+    g.fields["n"] = VInt(g.fields["n"].t + 1)
+    g.fields["status_code"] = st.obj(recv).fields["status_code"]
+    st.ghost["em_headers"] = st.obj(recv).fields["headers"]
+    return VTuple([])
+
+
+next_response_call.mods = ("em",)
+
+W_WRAPPER = Contract(
+    id="wsgi.middleware.wsgi", file=WM, qualname="middleware.<locals>.d.<locals>.wsgi", props=["C20"], generator=True,
+    params={"environ": Opaque("Environ"), "start_response": Opaque("StartResponse"),
+            "handler": TFunc(identity_handler, "handler"), "app": TFunc(inner_app_stub, "app")},
+    ghosts=dict(FROM_APP.ghosts, em=EM_T, em_headers=ObjT(MH, _dict=Map(Str, Str))),
+    requires=list(FROM_APP.requires) + ["em.n == 0 and em.n_handler == 0"],
+    setup=_from_app_setup, defs=FA_DEFS, ufuncs=FROM_APP.ufuncs,
+    stubs={"NextRequest": next_request_ctor},
+    stub_methods={(WM + ":NextResponse", "__call__"): next_response_call},
+    on_yield=lambda ev, v, node: None, on_yield_from=lambda ev, v, node: None, yield_mods=(),
+    ghost_modifies=["outb", "it", "ag", "em", "em_headers"], frame_check=False, raises={},
+    ensures={
+        "inner_app_ran_once": "ag.n_app == 1 and ag.n_start == 1 and em.n_handler == 1",
+        "response_called_once": "em.n == 1",
+        "status_forwarded": "em.status_code == int_of(code_text())",
+        "headers_forwarded": "forall((k, Str), has(em_headers._dict, k) == exists(i, 0, len(hl), lower(hl[i][0]) == k)) and "
+                             "forall(i, 0, len(hl), implies(unique_at(i), em_headers._dict[lower(hl[i][0])] == hl[i][1]))",
+    },
+    canaries={"never_calls_the_response": "em.n == 0"},
+    assumptions=["A-wsgi-app", "A-gen-eager"],
+    notes="the wrapper that middleware(handler)(app) returns, with an identity handler (calls next_call(request) once and returns "
+          "its result): from_app enters through its contract; calling the response object is recorded",
+)
+
+
+# ----- view decorators: decorator(handler)(view) == the wrapper `view`
+VG_T = ObjT("ViewGhost", n_view=Int, n_handler=Int)
+
+
+def _inner_view(ev, args, kwargs, node):
+    st = ev.st
+    g = st.obj(st.ghost["vg"])
+    g.fields["n_view"] = VInt(g.fields["n_view"].t + 1)
+    g.fields["arg_ok"] = VBool(args[0].t == st.ghost["req"].t) if isinstance(args[0], VOpaque) else VBool(False)
+    return st.ghost["resp"]
+
+
+_inner_view.mods = ("vg",)
+
+
+def _identity_view_handler(ev, args, kwargs, node):
+    st = ev.st
+    g = st.obj(st.ghost["vg"])
+    g.fields["n_handler"] = VInt(g.fields["n_handler"].t + 1)
+    return call_value(ev, args[1], [args[0]], {}, node)
+
+
+_identity_view_handler.mods = ("vg",)
+
+
+def _decorator_view(iface):
+    rel = "baize/%s/shortcut.py" % iface
+    return Contract(
+        id="%s.decorator.view" % iface, file=rel, qualname="decorator.<locals>.d.<locals>.view", props=["C20"],
+        params={"request": Opaque("Request"), "handler": TFunc(_identity_view_handler, "handler"),
+                "next_call": TFunc(_inner_view, "view")},
+        ghosts={"vg": ObjT("ViewGhost", n_view=Int, n_handler=Int, arg_ok=Bool), "req": Opaque("Request"), "resp": Opaque("Response")},
+        requires=["vg.n_view == 0 and vg.n_handler == 0", "req == request"], returns=Opaque("Response"),
+        ghost_modifies=["vg"], frame_check=False, raises={},
+        ensures={
+            # with an identity handler the decorated view IS the inner view: same request in, the inner response out, once
+            "inner_view_ran_once_with_the_request": "vg.n_view == 1 and vg.n_handler == 1 and vg.arg_ok",
+            "returns_the_inner_response": "result == resp",
+        },
+        canaries={"never_runs_the_view": "vg.n_view == 0"},
+        notes="the wrapper that decorator(handler)(view) returns, with an identity handler",
+    )
+
+
+DECORATOR_VIEWS = [_decorator_view("wsgi"), _decorator_view("asgi")]
+
 
 def register(reg):
     reg.add(ENSURE_NEXT)
+    for c in DECORATOR_VIEWS:
+        reg.add(c)
     reg.add(FROM_APP)
     reg.add(S_INIT)
-    for c in (CS_PUSH, CS_EOF, CS_NEXT, A_RENDER, A_SEND):
+    for c in (CS_PUSH, CS_EOF, CS_NEXT, A_RENDER, A_SEND, W_WRAPPER):
         reg.add(c)
